@@ -12,7 +12,7 @@ class C12(Prop):
     n_thorough = 2000
     shard = 16
     search_factor = 4
-    ready = False
+    ready = True
     manifest = dict(
         text="Coq theorems over a Gallina model of the Control-API configuration edits (Core.doAPIConfig*, the conf.Conf "
              "methods, copyStructFields, Clone with an explicit memory of per-path cells, the request loop of Core.run that "
